@@ -1,4 +1,5 @@
 import XvcRepo.Cache
+import XvcRepo.Effects
 /-!
   # C17 — Each recheck method materialises what it promises
 -/
@@ -74,6 +75,75 @@ theorem C17_effective_method (r : Rec) (m : Option Method) :
 example : ∃ s : St, ∃ a o, s.cache a = some o ∧ s.ws ⟨0, 1⟩ = none :=
   ⟨(St.init.setCache ⟨⟨0, [1]⟩, 1⟩ (some ⟨[1], true, 0⟩)), ⟨⟨0, [1]⟩, 1⟩, ⟨[1], true, 0⟩, by simp [upd], rfl⟩
 
+/-! ## `copy_via_temp_file` call by call (the copy method's "independent, user-writable file" at every crash point) -/
+
+theorem runC_append (x : CS) (l1 l2 : List COp) : runC x (l1 ++ l2) = runC (runC x l1) l2 := by
+  simp [runC, List.foldl_append]
+
+/-- calls on the temporary file leave the workspace path alone -/
+theorem runC_path_of_tmp_only (l : List COp) (h : ∀ o ∈ l, o ≠ .rename ∧ o ≠ .chmodPathW) (x : CS) :
+    (runC x l).path = x.path := by
+  induction l generalizing x with
+  | nil => rfl
+  | cons o t ih =>
+    have : runC x (o :: t) = runC (o.apply x) t := rfl
+    rw [this, ih (fun o' ho' => h o' (List.mem_cons_of_mem _ ho'))]
+    have ho := h o (List.mem_cons_self ..)
+    cases o <;> simp_all [COp.apply]
+
+theorem runC_appends (p : Option CFile) (f : CFile) (cs : List Bytes) :
+    runC ⟨p, some f⟩ (cs.map .append) = ⟨p, some { f with b := f.b ++ cs.flatten }⟩ := by
+  induction cs generalizing f with
+  | nil => simp [runC]
+  | cons c t ih =>
+    have : runC ⟨p, some f⟩ ((c :: t).map COp.append) = runC ⟨p, some { f with b := f.b ++ c }⟩ (t.map .append) := rfl
+    rw [this, ih]; simp [List.append_assoc]
+
+theorem copyViaTempPre_result (old tmp0 : Option CFile) (cs : List Bytes) :
+    runC ⟨old, tmp0⟩ (copyViaTempPre cs) = ⟨old, some ⟨cs.flatten, true⟩⟩ := by
+  simp only [copyViaTempPre, runC_append]
+  have : runC ⟨old, tmp0⟩ [.createTmp, .fchmodRo] = ⟨old, some ⟨[], false⟩⟩ := by simp [runC, COp.apply]
+  rw [this, runC_appends]
+  simp [runC, COp.apply]
+
+theorem copyViaTempPre_tmp_only (cs : List Bytes) : ∀ o ∈ copyViaTempPre cs, o ≠ .rename ∧ o ≠ .chmodPathW := by
+  intro o ho
+  simp only [copyViaTempPre, List.mem_append, List.mem_cons, List.mem_map, List.mem_nil_iff, or_false] at ho
+  rcases ho with ((rfl | rfl) | ⟨c, _, rfl⟩) | rfl <;> simp
+
+/-- **C17_copy_prefix_never_readonly_at_path**: for every old entry at the path, every stale temporary file, EVERY division
+    of the object's bytes into copy calls and EVERY prefix of the calls of `copy_via_temp_file` (a kill between any two):
+    what is at the workspace path is either the old entry, untouched, or the complete copy WITH the owner's write bit.
+    A read-only or partial file is never visible at the path, so no later `recheck` (same content, same method: it
+    leaves the file alone) can be stuck with one. -/
+theorem C17_copy_prefix_never_readonly_at_path (old tmp0 : Option CFile) (cs : List Bytes) (k : Nat) :
+    (runC ⟨old, tmp0⟩ ((copyViaTemp cs).take k)).path = old ∨
+    (runC ⟨old, tmp0⟩ ((copyViaTemp cs).take k)).path = some ⟨cs.flatten, true⟩ := by
+  rcases Nat.lt_or_ge k (copyViaTemp cs).length with hk | hk
+  · left
+    have hk' : k ≤ (copyViaTempPre cs).length := by simp [copyViaTemp] at hk; omega
+    have : (copyViaTemp cs).take k = (copyViaTempPre cs).take k := by
+      simp [copyViaTemp, List.take_append_of_le_length hk']
+    rw [this]
+    exact runC_path_of_tmp_only _ (fun o ho => copyViaTempPre_tmp_only cs o (List.mem_of_mem_take ho)) _
+  · right
+    rw [List.take_of_length_le hk, copyViaTemp, runC_append, copyViaTempPre_result]
+    simp [runC, COp.apply]
+
+/-- the uninterrupted procedure ends with the complete writable copy at the path and no temporary file -/
+theorem C17_copy_via_temp_complete (old tmp0 : Option CFile) (cs : List Bytes) :
+    runC ⟨old, tmp0⟩ (copyViaTemp cs) = ⟨some ⟨cs.flatten, true⟩, none⟩ := by
+  rw [copyViaTemp, runC_append, copyViaTempPre_result]; simp [runC, COp.apply]
+
+/-- **C17_rename_before_chmod_counterexample**: rename first, `set_writable(path)` afterwards.  Killed between the two
+    (prefix of 4 calls for a one-chunk object): the COMPLETE bytes sit at the path WITHOUT the write bit - neither the old
+    entry nor a writable copy; the uninterrupted run of that order ends exactly like the right one (why tests pass). -/
+theorem C17_rename_before_chmod_counterexample :
+    let killed := runC ⟨none, none⟩ ((copyViaTempRenameFirst [[104, 10]]).take 4)
+    killed.path = some ⟨[104, 10], false⟩ ∧ killed.path ≠ none ∧ killed.path ≠ some ⟨[104, 10], true⟩ ∧
+    runC ⟨none, none⟩ (copyViaTempRenameFirst [[104, 10]]) = runC ⟨none, none⟩ (copyViaTemp [[104, 10]]) := by
+  decide
+
 end Repo
 
 open Repo in
@@ -84,3 +154,9 @@ open Repo in
 #print axioms C17_method_sticks
 open Repo in
 #print axioms C17_effective_method
+open Repo in
+#print axioms C17_copy_prefix_never_readonly_at_path
+open Repo in
+#print axioms C17_copy_via_temp_complete
+open Repo in
+#print axioms C17_rename_before_chmod_counterexample
